@@ -58,6 +58,34 @@ CHECKS.update({
         ref="§5 C18"),
 })
 
+CHECKS.update({
+    "C02": sysprop("Coq proof (allocated CIDR is a well-formed free block of its pool; all CIDRs of a PATCH come from one reservation, IPv4 first; structural invariant preserved by every work item) + correspondence on PATCHes and pools + well-formedness/eligibility monitor",
+                   "Theorems (Properties/C02.v) for every state satisfying the structural invariant and every input; correspondence on system histories; the monitor re-derives from the ClusterCIDR specs that every PATCH is one aligned block per configured family of one eligible, non-terminating ClusterCIDR whose selector the cached node satisfies.",
+                   "§5 C02"),
+    "C04": sysprop("Coq proof, PARTIAL (reserve-then-release restores the pool; release frees exactly the overlapped blocks; failed attempts keep the invariant) + correspondence on full pool snapshots + justification monitor at every idle point",
+                   "Theorems (Properties/C04.v) at pool and call level; the global statement over histories is checked by the monitor on the implementation's traces (every used key must overlap an existing node's CIDR, a service range, or a reservation kept after an unresolved ambiguous write) -- not proved. Known findings K-D21, K-TOMB.",
+                   "§5 C04"),
+    "C05": sysprop("Coq proof, PARTIAL (a refusal is always reported as error + CIDRNotAvailable event; the pool's candidate search is complete for every cursor position) + correspondence + free-capacity monitor",
+                   "Theorems (Properties/C05.v); completeness of the allocateCIDR loop across pools blocked by other ClusterCIDRs is checked on every trace by the monitor, which recomputes free capacity from the snapshot and the node cache -- not proved.",
+                   "§5 C05"),
+    "C09": sysprop("Coq proof (occupying a service range marks every overlapping block; candidates never overlap marked blocks; construction establishes the invariant) + correspondence on histories with service ranges + overlap monitor",
+                   "Theorems (Properties/C09.v) for all relative sizes/positions (the only notion is overlap); correspondence and monitor on start-up configurations with primary/secondary ranges of both families until exhaustion.",
+                   "§5 C09"),
+    "C10": sysprop("Coq proof (handling a mapped object changes nothing; second handling is a no-op; a failed finalizer write maps nothing) + correspondence on pool snapshots with ClusterCIDR write faults + one-entry-per-name monitor",
+                   "Theorems (Properties/C10.v) for every state, object and write outcome; correspondence and monitor on histories with failed/retried ClusterCIDR writes, stale caches, start-up listing followed by notifications.",
+                   "§5 C10"),
+    "C11": sysprop("Coq proof, PARTIAL (a failed work item is always requeued) + correspondence on queues/results + steady-state monitor after a fair drain",
+                   "Theorems (Properties/C11.v): requeue. Convergence is checked, not proved: every history is followed by three rounds of fair, fault-free processing and the monitor checks that every servable node has CIDRs and every releasable ClusterCIDR is gone. Fairness/timing of the real rate limiter is represented only by the Tick op. Known finding K-AMB.",
+                   "§5 C11"),
+    "C12": sysprop("Coq proof (ClusterCIDR items never panic for any content; ordering never panics under the invariant; invariant preserved for all well-formed inputs; unusable selector/range/family/host bits rejected with an error and no state change) + correspondence incl. a malformed-input stream + panic monitor",
+                   "Theorems (Properties/C12.v); 600 malformed histories per run (garbage / other-family / sloppy CIDR strings, host bits from -2^31 to 2^31-1, 14 bad selector shapes, node CIDRs of missing families, service ranges of missing families, tombstones) run on the real code under recover(); any panic is a violation.",
+                   "§5 C12"),
+    "C20": sysprop("translator: SSA taint analysis of informer-cache objects, facts regenerated every run and checked in Coq (cache_write_sites = []) + Coq frame theorem on the model + runtime deep-hash monitor on every step",
+                   "Static: no instruction of packages ipam/multicidrset can write through a value derived from lister results or handler arguments (stores, map updates, append/copy/delete, hand-off to non-read-only callees). Dynamic: every cached object hashed before/after each of ~65,000 steps. Model: work items leave both caches unchanged (Properties/C20.v).",
+                   "§5 C20",
+                   note="PARTIAL: the static analysis (taint rules, allow-list of read-only callees) is trusted, not verified; aliasing through data structures outside the two packages is not tracked. " + SYS_NOTE),
+})
+
 NOT_APPLICABLE = []
 
 def main():
